@@ -37,13 +37,30 @@ fn any_kernel(tagbyte: u8) -> (TxKernel, Option<u64>, bool) {
 	}
 }
 
+/// kernel i of the block: height-locked with a symbolic lock height if bit i of SHAPE is set,
+/// plain otherwise (variants concrete per query, lock heights symbolic)
+const SHAPE: u64 = {
+	match option_env!("VH_SHAPE") {
+		Some(s) => (s.as_bytes()[0] - b'0') as u64,
+		None => 3,
+	}
+};
+
 proof! {
-	[hash_mix, zeroize] fn block_lock_heights() {
+	[hash_mix, zeroize, sort] fn block_lock_heights() {
 		env::set_chain_type(grin_core::global::ChainTypes::Mainnet);
-		env::set_nrd_enabled(true);
+		env::set_nrd_enabled(false);
 		let height: u64 = nd::any();
-		let (k1, lh1, _) = any_kernel(1);
-		let (k2, lh2, _) = any_kernel(2);
+		let mk = |bit: u64, tagbyte: u8| -> (TxKernel, Option<u64>) {
+			if SHAPE >> bit & 1 == 1 {
+				let lh: u64 = nd::any();
+				(kernel(KernelFeatures::HeightLocked { fee: fee(1), lock_height: lh }, tagbyte), Some(lh))
+			} else {
+				(kernel(KernelFeatures::Plain { fee: fee(1) }, tagbyte), None)
+			}
+		};
+		let (k1, lh1) = mk(0, 1);
+		let (k2, lh2) = mk(1, 2);
 		let mut header = BlockHeader::default();
 		header.height = height;
 		let block = Block {
@@ -58,9 +75,9 @@ proof! {
 			check!(*l > height && (lh1 == Some(*l) || lh2 == Some(*l)), "the lock-height error names a kernel locked above the block height");
 		}
 		// boundaries: one below, at, one above
-		cover!(r.is_ok() && lh1 == Some(height), "kernel locked exactly at the block height accepted");
-		cover!(r.is_ok() && lh1.is_some() && lh1.unwrap() + 1 == height, "lock one below accepted");
-		cover!(matches!(r, Err(BlockError::KernelLockHeight(_))) && lh1 == Some(height.wrapping_add(1)), "lock one above refused");
+		cover!(r.is_ok(), "accepted");
+		cover!(r.is_ok() && (lh1 == Some(height) || lh2 == Some(height)), "kernel locked exactly at the block height accepted");
+		cover!(matches!(r, Err(BlockError::KernelLockHeight(_))) && (lh1 == Some(height.wrapping_add(1)) || lh2 == Some(height.wrapping_add(1))), "lock one above refused");
 		core::mem::forget(r);
 		core::mem::forget(block);
 	}
